@@ -100,7 +100,7 @@ def _deadspace_siblings(ctx):
             elif op in (C.MAX_REPEAT, C.MIN_REPEAT):
                 lo, hi, s2 = av
                 if len(s2) == 1 and s2[0][0] is C.IN and lo == 0:
-                    prev = charset(s2[0][1])
+                    prev = charset(s2[0][1]) | ({'*'} if hi > 1 else set())      # '*' marks "any number of them"
                 elif len(s2) == 1 and s2[0][0] is C.SUBPATTERN:
                     # an optional group: (?P<ew>...)?
                     gname = ctx_groups.get(s2[0][1][0])
@@ -133,7 +133,7 @@ def _deadspace_siblings(ctx):
             n += 1
             ctx.check(not (cs < major), 'SIB', f"{rname}: the deadspace in front of <{g}> is as wide as in its sibling regexes",
                       f"{len(cs)} characters / categories",
-                      f"{rname} allows only {sorted(cs)} in front of <{g}> while {cnt} sibling regexes allow {sorted(major)}: "
+                      f"{rname} allows only {sorted(cs)} ('*' = repeatable) in front of <{g}> while {cnt} sibling regexes allow {sorted(major)}: "
                       f"a spelling with {sorted(major - cs)} there (e.g. 'R97-E') is no longer recognised by this one, and the "
                       f"written direction is overridden by the default",
                       key=f"SIB|{rname}|deadspace|{g}", where='pytrs/parser/rgxlib/twprge.py')
@@ -188,6 +188,8 @@ def check(ctx):
     ctx.attempt(_config_words)
     ctx.attempt(_by_position)
     ctx.attempt(_deadspace_siblings)
+    from .c14 import fresh_inputs        # preprocess() starts from the original text, not from its own earlier output
+    ctx.attempt(fresh_inputs, specs=(('PLSSDesc.preprocess', 'PLSSPreprocessor', 'plss_preprocess'),))
     from .c13 import lockdown as _lockdown
     ctx.attempt(_lockdown, ctx.repo.func('Tract.from_twprgesec'), only=('default_ns', 'default_ew'), source='config')
 
